@@ -98,6 +98,7 @@ func (r result) String() string {
 }
 
 type session struct {
+	lastRef *refusal // set by run when the optimizer refused the fragment
 	ev      *ugo.Eval
 	globals ugo.Map
 	lg      *run.Logger
@@ -127,6 +128,7 @@ const fragTimeout = 4 * time.Second
 
 func (s *session) run(src string) (res result) {
 	printBuf.Reset()
+	s.lastRef = nil
 	ctx, cancel := context.WithTimeout(context.Background(), fragTimeout)
 	defer cancel()
 	var ret ugo.Object
@@ -161,6 +163,9 @@ func (s *session) run(src string) (res result) {
 			res.CKind, res.Msg = "compile", ce.Err.Error()
 		case errors.As(err, &oe) || strings.Contains(err.Error(), "Optimizer Error"):
 			res.CKind, res.Msg = "optimizer", ""
+			if oe != nil && oe.Err != nil {
+				s.lastRef = &refusal{Line: oe.FilePos.Line, Col: oe.FilePos.Column, Err: oe.Err.Error()}
+			}
 		case errors.As(err, &pe) || errors.As(err, &pe1) || strings.Contains(err.Error(), "Parse Error"):
 			res.CKind, res.Msg = "parse", ""
 		}
@@ -217,6 +222,7 @@ type snap struct {
 	ProbeLog     []string `json:"probe_log,omitempty"`
 	ProbeGlobals string   `json:"probe_globals,omitempty"`
 	EarlyFail    bool     `json:"early_fail,omitempty"` // a fragment before the last one failed
+	Ref          *refusal `json:"refusal,omitempty"`    // where and why the optimizer refused the last fragment
 	Timeout      bool     `json:"timeout,omitempty"`
 }
 
@@ -241,6 +247,7 @@ func runSession(c *Case, globals ugo.Map, frags []string, probes []string) snap 
 	sn.Out = s.out.String()
 	sn.Log = s.logCopy()
 	sn.Globals = s.dumpGlobals()
+	sn.Ref = s.lastRef
 	if k := sn.last().Kind; k == "cerr" || k == "panic" {
 		return sn // nothing ran (in the batch session not even the earlier statements): no state to compare
 	}
@@ -346,6 +353,12 @@ func judge(c *Case, cache bcache) verdict {
 		}
 		v.Judged++
 		if sig, _ := compare(c, i, a, b); sig == excludeRefusal {
+			if d := unjustifiedRefusal(c, globals, i, a, b); d != "" {
+				v.Sig = "eval:optimizer-refusal-unjustified"
+				c.Diff = d
+				v.What = describe(c, i, a, b, d)
+				return v
+			}
 			v.Excluded = strings.TrimPrefix(sig, "EXCLUDE:")
 			return v
 		}
